@@ -1,0 +1,13 @@
+//go:build verif
+
+// Contracts for package z80, read by /verif/engine (vcheck).  This file holds
+// comments only: with the build tag off it is not compiled, with it on it adds
+// nothing to the package.  Grammar: /verif/DESIGN.md, Appendix A.
+
+package z80
+
+//@ func (cpu *CPU) executeOne()
+//@   layer P
+//@   requires cpu.Memory != nil
+//@   ensures [diff] vsExecDiff(cpu, old(cpu), g, old(g)) == 0
+//@   modifies cpu.States, cpu.HALT, g.Mem, g.Rd, g.Wr, g.PIn, g.POut, g.Retn, g.Reti
